@@ -14,7 +14,8 @@ RULE = ('Schematic(obj, placeAndRoute=True) built in a child process (20 s alarm
         'signature (optional ports connected or not), '
         '(c) generated netlists inside a harness structural block (gates, adders, muxes, multi-output leaves, registers, library blocks '
         'with their optional/multiple ports connected: Add ci/co, Abs inverted, Reg enable/reset, ShiftRight arithmetic, DelayLine, '
-        'Comparator, Swap, counters; chains, '
+        'Comparator, Swap, counters; several outputs of one block converging on one sink with another reader created later and a '
+        'register loop behind; children instantiated in data-flow, reversed or random order; chains, '
         'fan-out, register feedback incl. q->own d, edges spanning several columns, one wire on two pins); the object graph '
         '(objs, nets, symbol_matrix) is judged offline. non-trivial = the drawing needed a pass-through or feedback marker, or has '
         'fan-out > 1, or >= 8 instances; distinct by content hash of the case')
@@ -35,6 +36,8 @@ def assumptions(run):
                'port, and for every reading port some net of the wire arrives at its symbol with sinkPort = that port')
     run.assume('"no pin of any other wire": every sourcePort/sinkPort carried by a net of wire w has .wire is w, every non-marker '
                'endpoint symbol of such a net owns a pin on w, and no pass-through/feedback marker is shared between two wires')
+    run.assume('the drawn figure of a wire = the routed poly-lines (net.x, net.y) of its nets plus the line a pass-through marker draws; it '
+               'must not run over the pin point of another wire (pins already reported as drawn on one point are not reported twice)')
     run.assume('overlap is judged among instance and port symbols only (markers excluded), on (x, y, getWidth(), getHeight())')
     run.assume('termination = the constructor returns within %d s (alarm in the child; unchanged tree needs < 1 s for every case); '
                'a constructor that raises yields no schematic and is a violation as well' % LIMIT_S)
@@ -223,6 +226,11 @@ def judge(run, case, res):
     if feats.get('lib_nodes'):
         run.count('netlists_with_library_nodes')
         run.count('netlist_library_optional_ports_connected', feats['lib_optional_ports'])
+    if feats.get('converging_outputs'):
+        run.count('netlists_with_converging_outputs_of_one_block')
+    if feats.get('creation_order_permuted'):
+        run.count('netlists_with_permuted_creation_order')
+    run.count('sch_route_segments_judged', st.get('route_segments_judged', 0))
     if case['type'] == 'child':
         run.count('library_blocks_drawn_as_child')
     run.count('sch_pin_positions_judged', st.get('pin_positions_judged', 0))
@@ -236,6 +244,8 @@ def judge(run, case, res):
         f.update(pr['fields'])
         sw = res.get('swallowed_text', '')
         f['swallowed'] = sw.split(':')[0][:40] if res['swallowed'] else None
+        f['swallowed_kind'] = (None if not res['swallowed'] else 'multiple_nets' if 'ple nets between' in sw else
+                               'not_in_remove_nets' if 'not in remove nets' in sw else sw.split(':')[0][:40])
         key = 'c18_' + pr['clause']
         sig = json.dumps([key, f], sort_keys=True, default=repr)
         if sig in seen:
